@@ -422,6 +422,12 @@ func (m *Machine) visitInstr(fr *frame, instr ssa.Instruction) continuation {
 		fr.env[instr] = m.unop(fr, instr, fr.get(instr.X))
 
 	case *ssa.BinOp:
+		if (instr.Op == token.SHL || instr.Op == token.SHR) && isSigned(instr.Y.Type()) {
+			// a negative signed shift count is a run-time panic
+			if cnt, ok := fr.get(instr.Y).(*smt.Term); ok {
+				fr.require("negative shift amount", m.C.Sle(m.C.Const(0, cnt.W), cnt))
+			}
+		}
 		fr.env[instr] = m.binop(fr, instr.Op, instr.X.Type(), fr.get(instr.X), fr.get(instr.Y))
 
 	case *ssa.Call:
